@@ -294,6 +294,57 @@ func TestC06(t *testing.T) {
 		}
 	})
 
+	// long retention: messages kept across tens of thousands of later reads (any amortised
+	// allocation scheme inside the decoders has come round several times by then)
+	rec.Suite("long-retention", rec.N(3, 60), func(c *ev.Case) {
+		r := c.R
+		total := 40000
+		type kept struct {
+			m      *diam.Message
+			before snapshot
+			wire   []byte
+			at     int
+		}
+		var keep []kept
+		for i := 0; i < total; i++ {
+			nodes := []*refcodec.Node{
+				{Code: 9015, Flags: 0x40, Kind: refcodec.Address, Fam: 1, B: []byte{10, byte(i >> 16), byte(i >> 8), byte(i)}},
+				{Code: 9016, Flags: 0x40, Kind: refcodec.IPv4, B: []byte{192, byte(i >> 16), byte(i >> 8), byte(i)}},
+				{Code: 9017, Flags: 0x40, Kind: refcodec.IPv6, B: append(bytes.Repeat([]byte{0x20}, 12), byte(i>>24), byte(i>>16), byte(i>>8), byte(i))},
+				{Code: 0x00E10001, Kind: refcodec.Unknown, B: []byte{byte(i), byte(i >> 8), byte(i >> 16), 7}},
+			}
+			if r.IntN(8) == 0 {
+				nodes = append(nodes, &refcodec.Node{Code: 9018, Flags: 0x40, Kind: refcodec.Grouped, Kids: []*refcodec.Node{
+					{Code: 9015, Flags: 0x40, Kind: refcodec.Address, Fam: 2, B: append(bytes.Repeat([]byte{0xfd}, 12), byte(i>>24), byte(i>>16), byte(i>>8), byte(i))}}})
+			}
+			w := refcodec.EncodeMessage(refcodec.Header{Version: 1, Flags: 0x80, Code: 8388000, HopByHop: uint32(i), EndToEnd: 1}, nodes)
+			m, err := diam.ReadMessage(bytes.NewReader(w), ctx.Parser)
+			if err != nil {
+				c.Fail(ev.Sig{"op": "setup"}, w, nil, "ReadMessage: %v", err)
+				return
+			}
+			if i%797 == 0 {
+				b, err := snap(m)
+				if err != nil || !bytes.Equal(b.wire, w) {
+					c.Fail(ev.Sig{"op": "setup"}, w, nil, "message %d does not round-trip: %v", i, err)
+					return
+				}
+				keep = append(keep, kept{m, b, w, i})
+			}
+		}
+		for _, k := range keep {
+			after, err := snap(k.m)
+			if err != nil || !bytes.Equal(after.wire, k.before.wire) || after.str != k.before.str || after.hdr != k.before.hdr {
+				c.Fail(ev.Sig{"op": "retained-changed", "what": "bytes", "how": "long-retention"}, k.wire, map[string]any{"before": ev.Hex(k.before.wire), "after": ev.Hex(after.wire)},
+					"message number %d of %d, kept while the rest were read, changed (err=%v): its serialisation differs at byte %d", k.at, total, err, firstDiff(after.wire, k.before.wire))
+				return
+			}
+		}
+		c.Class("long-retention/kept=%d", len(keep))
+		c.Event("long_retention_runs", 1)
+		c.Event("later_reads", total)
+	})
+
 	// the application lowered the public nesting limit diam.MaxGroupedAVPDepth: whatever
 	// the decoder then does with groups at and beyond the limit (reject the message, or
 	// keep it), a message it returned must not change
